@@ -21,7 +21,7 @@ def jobs(tier):
         J('deduplicate-sites', dict(MODE=6, NR=2, NSITES=3), require_tags={'end': 1, 'merged': 1, 'unsorted': 1}),
         J('squash-edges', dict(MODE=7, NR=3), require_tags={'end': 1, 'squashed': 1}),
         dict(name='kernel-comparators', harness='k_kernels.c', entry='main_kernel', defines=dict(KERNEL=5), timeout=600,
-             require_tags={'end': 6}),
+             require_tags={'end': 9}),
     ]
     if tier == 'quick':
         return q
@@ -36,7 +36,7 @@ def jobs(tier):
 
 
 BOUNDS = {
-    'quick': 'deduplicate_sites: 3 sites at symbolic positions (sorted or not) x 2 mutations; EdgeTable.squash: 3 edges of one parent, 2 children, symbolic coordinates; comparator kernel: cmp_edge/site/mutation/mutation_canonical/migration/individual_canonical on three records with free 32-bit ids and free non-NaN binary64 keys (mutation times known or UNKNOWN per site): antisymmetric, transitive, zero only on equal keys; sort: 3 edges (parent/child enumerated over nodes with tied times, left symbolic, every edge_start), 2-3 sites x '
+    'quick': 'deduplicate_sites: 3 sites at symbolic positions (sorted or not) x 2 mutations; EdgeTable.squash: 3 edges of one parent, 2 children, symbolic coordinates; comparator kernel: cmp_edge/site/mutation/mutation_canonical/migration/individual_canonical/index_sort/segment/edge_cl on three records with free 32-bit ids and free non-NaN binary64 keys (mutation times known or UNKNOWN per site): antisymmetric, transitive, zero only on equal keys; sort: 3 edges (parent/child enumerated over nodes with tied times, left symbolic, every edge_start), 2-3 sites x '
              '2-3 mutations (positions and known times symbolic, duplicate positions, unknown times, mutation parents), 3 '
              'migrations (time/left symbolic, source/dest/node enumerated); every row tagged by 1-byte metadata. '
              'compute_mutation_parents: all 3-node 2-edge tree sequence classes x 2 sites x 2 mutations (site/node '
